@@ -682,4 +682,58 @@ theorem run_monotone (evs : List Events) : ∀ (s : Sim), (∀ a ∈ s.pop, Good
       obtain ⟨a', g', r'⟩ := ih (simStep s e) hinv1 hb i a1 g1
       exact ⟨a', g', Nat.le_trans r1 r'⟩
 
+/-! ### Cumulative series over whole runs -/
+
+theorem sumNat_foldl (l : List Nat) : ∀ a, l.foldl (· + ·) a = a + sumNat l := by
+  induction l with
+  | nil => intro a; simp [sumNat]
+  | cons x xs ih => intro a; simp only [sumNat, List.foldl_cons]; rw [ih, ih (0 + x)]; omega
+
+theorem sumNat_append (l : List Nat) (x : Nat) : sumNat (l ++ [x]) = sumNat l + x := by
+  unfold sumNat; rw [List.foldl_append]; simp
+
+/-- every recorded row carries: cumulative infections = all infections recorded up to AND INCLUDING its step; cumulative
+    deaths = all deaths recorded BEFORE its step (the source's `sum[:ti+1]` and `sum[:ti]`) -/
+def CumOK (rows : List Row) : Prop :=
+  ∀ (k : Nat) (r : Row), rows[k]? = some r →
+    r.cumInf = sumNat ((rows.take (k + 1)).map (·.newInf)) ∧ r.cumDeaths = sumNat ((rows.take k).map (·.newDeaths))
+
+theorem simStep_cum (s : Sim) (ev : Events) (h : CumOK s.rows) : CumOK (simStep s ev).rows := by
+  obtain ⟨r, hr, _, _, _, _, _, _, hcd, _, hci, _, _⟩ := simStep_rows s ev
+  rw [hr]
+  intro k r' hk
+  by_cases hlt : k < s.rows.length
+  · rw [List.getElem?_append_left hlt] at hk
+    obtain ⟨h1, h2⟩ := h k r' hk
+    have t1 : (s.rows ++ [r]).take (k + 1) = s.rows.take (k + 1) := List.take_append_of_le_length (by omega)
+    have t2 : (s.rows ++ [r]).take k = s.rows.take k := List.take_append_of_le_length (by omega)
+    rw [t1, t2]; exact ⟨h1, h2⟩
+  · have hge : s.rows.length ≤ k := Nat.le_of_not_lt hlt
+    rw [List.getElem?_append_right hge] at hk
+    have hk0 : k - s.rows.length = 0 := by
+      cases hkk : k - s.rows.length with
+      | zero => rfl
+      | succ n => rw [hkk] at hk; simp at hk
+    rw [hk0] at hk
+    simp only [List.getElem?_cons_zero, Option.some.injEq] at hk
+    subst hk
+    have hkeq : k = s.rows.length := by omega
+    subst hkeq
+    have t1 : (s.rows ++ [r]).take (s.rows.length + 1) = s.rows ++ [r] := by
+      apply List.take_of_length_le; simp
+    have t2 : (s.rows ++ [r]).take s.rows.length = s.rows := by
+      rw [List.take_append_of_le_length (Nat.le_refl _), List.take_length]
+    rw [t1, t2, List.map_append, List.map_singleton, sumNat_append]
+    exact ⟨hci, hcd⟩
+
+/-- **Cumulative results over whole runs** (any events, any length): `cum_infections[t] = Σ_{u ≤ t} new_infections[u]`,
+    while `cum_deaths[t] = Σ_{u < t} new_deaths[u]` — the recorded one-step lag of `cum_deaths`, as a theorem about the
+    composed model following the regenerated slicing conventions. -/
+theorem run_cum (evs : List Events) : ∀ s : Sim, CumOK s.rows → CumOK (run s evs).rows := by
+  induction evs with
+  | nil => intro s h; exact h
+  | cons e es ih => intro s h; exact ih _ (simStep_cum s e h)
+
+theorem cumOK_nil : CumOK [] := by intro k r h; simp at h
+
 end StarsimModel.SimCore
